@@ -142,9 +142,10 @@ pub fn check_case(c: &Case, st: &mut Stats, shard: usize) -> Check {
 
 pub fn multipliers(thorough: bool, seed: u64) -> Vec<u128> {
     let mut v: Vec<u128> = vec![];
-    let stride = if thorough { 1 } else { 8 };
+    let stride = if thorough { 1 } else { 2 };
+    let top = if thorough { 16384 } else { 4096 };
     let mut i = 0u128;
-    while i <= 4096 {
+    while i <= top {
         v.push(i);
         i += stride;
     }
@@ -193,7 +194,7 @@ pub fn run(ctx: &Ctx) -> (Outcome, String, Option<bool>) {
         r
     });
     out.stats.classes.insert("multiplier-chunks".into(), n_cases as u64);
-    let rule = format!("Enumerated: all 256 deltas x multipliers {{0..4096 step {}}} + {{2^k-2..2^k+2 : 7<=k<=69}} + {{2^70-2, 2^70-1, 2^70}} + pseudo-random values below 2^70 ({} multipliers), on Custom02 (TIP-901 active) and on Mainnet and Testnet at height 0 (TIP-901 inactive; every third chunk), plus sealing without action, plus runs of 300 blocks of extreme deltas (-128, 127, -1, 1 in stretches of 40) from selected starting points. Oracle: m' = m + trunc(max(m>>7, 2 if TIP-901) * d / 128) in exact integer arithmetic; where that leaves [0, 2^128) the only requirement is that sealing does not fail and the multiplier does not move the wrong way or wrap; no action => unchanged. Non-trivial = (m, d) with d != 0; distinct by (m, d, TIP-901).", if ctx.thorough() { 1 } else { 8 }, ms.len());
+    let rule = format!("Enumerated: all 256 deltas x multipliers {{0..{} step {}}} + {{2^k-2..2^k+2 : 7<=k<=69}} + {{2^70-2, 2^70-1, 2^70}} + pseudo-random values below 2^70 ({} multipliers), on Custom02 (TIP-901 active) and on Mainnet and Testnet at height 0 (TIP-901 inactive; every third chunk), plus sealing without action, plus runs of 300 blocks of extreme deltas (-128, 127, -1, 1 in stretches of 40) from selected starting points. Oracle: m' = m + trunc(max(m>>7, 2 if TIP-901) * d / 128) in exact integer arithmetic; where that leaves [0, 2^128) the only requirement is that sealing does not fail and the multiplier does not move the wrong way or wrap; no action => unchanged. Non-trivial = (m, d) with d != 0; distinct by (m, d, TIP-901).", if ctx.thorough() { 16384 } else { 4096 }, if ctx.thorough() { 1 } else { 2 }, ms.len());
     (out, rule, Some(true))
 }
 
